@@ -16,6 +16,21 @@ def c13(ck):
                     tlc_workers=8 if ck.tier == "quick" else 12, harness_workers=6, timeout=3400)
 
 
+def c14(ck):
+    ck.rule = ("exhaustive: every array of length 0..4 (thorough 5) over {nil, 1, 2, 2.0, 'a', 'A', 'b'} x 17 filter links (sort, "
+               "sort_natural, reverse, uniq, compact, first, last, size, join, concat, 4 slices, map, where); strings differing only "
+               "in case; arrays of length 0..3 (4) over 8 one/two-key objects with missing / nil / false properties x property-taking "
+               "filters with present and absent property names and where-targets; mixed incomparable elements; random: seeded arrays "
+               "of length up to 60 in drawn / ascending / descending / organ-pipe order over four type mixes; non-trivial = length > 1 "
+               "(exhaustive) or > 20 (random)")
+    ck.assumptions = ["on elements that are not mutually comparable sort is only required to return a permutation",
+                      "sort_natural orders by the lower-cased printed form, nil last"]
+    ck.replay_stage("arrays", "MC_C14", "MC_C14_quick.cfg" if ck.tier == "quick" else "MC_C14_thorough.cfg",
+                    tlc_workers=8 if ck.tier == "quick" else 12, harness_workers=6, timeout=3400)
+    ck.trace_stage("random60", ["arrays", "--cases", "400" if ck.tier == "quick" else "4000"], "Trace_Eval", "Trace_Eval.cfg",
+                   heap="6g", timeout=3000)
+
+
 def c16(ck):
     ck.rule = ("escape / escape_once: every string of length <= 4 (thorough 5) over {< > & \" ' ; # a l t m p space e-acute} and "
                "every sequence of <= 3 (4) entity-level tokens (the five entities, bare &, &amp without ;, &lt;;, &#39 without ;); "
@@ -185,7 +200,7 @@ def c20(ck):
     ck.trace_stage("realthreads", ["threads", "--runs", runs], "Trace_Threads", "Trace_Threads.cfg", heap="8g", timeout=3000)
 
 
-PROPS = {"C03": c03, "C04": c04, "C06": c06, "C07": c07, "C08": c08, "C09": c09, "C10": c10, "C13": c13, "C16": c16, "C19": c19, "C20": c20, "C05": c05, "C18": c18}
+PROPS = {"C03": c03, "C04": c04, "C06": c06, "C07": c07, "C08": c08, "C09": c09, "C10": c10, "C13": c13, "C14": c14, "C16": c16, "C19": c19, "C20": c20, "C05": c05, "C18": c18}
 
 
 def replay_file(prop, path):
